@@ -62,8 +62,9 @@ LISTING_WORD = {0: "off", 1: "on", 2: "noskipped", 3: "purecode"}
 
 
 class Gen:
-    def __init__(self, rng, cls, dirs=0.0):
+    def __init__(self, rng, cls, dirs=0.0, prefix=""):
         self.rng = rng
+        self.prefix = prefix    # name prefix of the include files (several sources of one invocation share a directory)
         self.cls = cls          # 'A': one pass, kinds unk/argc/range/uerr/uwarn (+ silent undef); 'B': undefined symbols only
         self.dirs = dirs        # rate of listing-control lines (LISTING / SAVE / RESTORE) per body slot
         self.nid = 0
@@ -242,7 +243,7 @@ class Gen:
             self.macros.append((name, b))
             return ("call", name)
         self.nfile += 1
-        fn = "f%d.inc" % self.nfile
+        fn = "%sf%d.inc" % (self.prefix, self.nfile)
         self.files[fn] = self.body(depth + 1, mult) + [("plain", " nop", [" nop"])]
         return ("incl", fn, self.files[fn])
 
@@ -381,9 +382,9 @@ def shape_stats(body, macros, depth, st):
         shape_stats(sub, macros, depth + 1, st)
 
 
-def gen_program(rng, cls, dirs=0.0):
+def gen_program(rng, cls, dirs=0.0, prefix=""):
     for _ in range(50):
-        g = Gen(rng, cls, dirs)
+        g = Gen(rng, cls, dirs, prefix)
         main = g.body(0, 1)
         macros = dict(g.macros)
         if cls == "A":
@@ -401,10 +402,10 @@ def gen_program(rng, cls, dirs=0.0):
     raise RuntimeError("generator could not produce a program in budget")
 
 
-def file_texts(g, top):
+def file_texts(g, top, main="main.asm"):
     files = {}
     phys = {}
-    for name, body in [("main.asm", top)] + sorted(g.files.items()):
+    for name, body in [(main, top)] + sorted(g.files.items()):
         ls = []
         render_body(g, body, ls)
         # line ends: LF or CR-LF per file, and the last line of a file may come without a line end - line numbers do not depend on either
@@ -623,7 +624,7 @@ def prog_request(g, top, macros, recs, opts, fixed):
                                               " ".join(toks(g, top, macros)))
 
 
-def chan_request(g, top, macros, con, chan, lst, opts, fixed):
+def chan_request(g, top, macros, con, chan, lst, opts, fixed, main="main.asm"):
     """request line of driver mode c20c"""
     def hx(recs):
         return ",".join(r["prefix"].encode("latin-1").hex() for r in recs) or "-"
@@ -633,7 +634,7 @@ def chan_request(g, top, macros, con, chan, lst, opts, fixed):
                                          f["numv"] if f["numv"] is not None else "-", 1 if f["rep"] else 0, f.get("role", "D")))
     console = opts["lst"] in LST_CONSOLE
     lm = 0 if opts["lst"] == "none" else (3 if opts["chan"] == "!1" else 1) if console else 2
-    return "g%d n%d f%d l%d main.asm %s %s %s %s %s" % (opts["gnu"], opts["numeric"], 1 if fixed else 0, lm, hx(con), hx(chan),
+    return "g%d n%d f%d l%d %s %s %s %s %s %s" % (opts["gnu"], opts["numeric"], 1 if fixed else 0, lm, main, hx(con), hx(chan),
                                                         "~" if lst is None else hx(lst), ",".join(fl) or "-",
                                                         " ".join(toks(g, top, macros)))
 
@@ -644,7 +645,7 @@ def kv(ans):
 
 def run(args):
     res = common.Result("C20", args.tier, args.seed, "proof")
-    bdir, audit, proof_problems = common.standard_setup(res, "C20", ["ErrPos"])
+    bdir, audit, proof_problems = common.standard_setup(res, "C20", ["ErrPos", "ErrClose"])
     if bdir is None:
         return res.finish()
     drv_ok = not any(p.startswith("driver does not build") for p in proof_problems)
@@ -952,13 +953,22 @@ def run(args):
             if ans.strip() != "spec=ok":
                 spec_fail.append(dict(why="EXPECT block (events %d..%d): suppressed/reported multisets are not announced∩occurred / announced∖occurred: %s" % (s, e, req), **payload))
 
+        # ---- several source files in one invocation x the -E targets (vlib/props/c20_files.py, driver mode c20m)
+        from . import c20_files
+        import sys as _sys
+        evaluations += c20_files.run_part(_sys.modules[__name__], bdir, wd, common.rng_for(args.seed, "C20-files"), nums, fixed, args.tier, drv_ok,
+                                          dist, spec_fail, corr_fail, samples, distinct)
+
     dist["shapes"] = shapes
     dist["irp_getpos_repaired"] = bool(fixed)
     res.coverage = common.proof_coverage(audit, "C20", [
         "translate/tables.py gen_errpos (EXPECT message numbers from errmsg.h, catalogue texts of as.msg via compiled dumper)",
+        "translate/tables.py gen_errclose (clang-14 AST of as.c AssembleFile: the condition the close of the error log stands under)",
         "correspondence: real asl message streams (console listing, error channel, listing file) vs Model/Pos.lean + Model/PosChan.lean "
         "(= Model/ErrChan.lean driven by the planted lines) on generated nesting trees (differential test)",
-        "harness parser of the message streams (vlib/props/c20.py parse_channel; messages are picked out of listings by their lead-in)"])
+        "harness parser of the message streams (vlib/props/c20.py parse_channel; messages are picked out of listings by their lead-in)",
+        "correspondence: one asl run over 2..4 sources x -E targets vs Model/PosFiles.lean (error-log discipline of Model/FileOut.lean, the guard of "
+        "the per-file close as a probed flag); the link PosFiles.run = FileOut.assembleFiles is proved (Lemmas/PosFiles) and re-checked per case"])
     res.coverage.update(
         evaluations=evaluations, distinct_nontrivial=len([d for d in distinct if d]),
         rule="one evaluation = one asl run whose message streams (standard output with the console listing, error channel, listing file) are compared "
@@ -988,12 +998,12 @@ def replay(args):
             rc, so, se = common.run_tool(bdir, "asl", d["cmd"], wd)
             print("asl", " ".join(d["cmd"]), "-> rc", rc)
             print((so + se).decode("latin-1")[-3000:])
-            for fn in ("err.log", "main.lst", "out.lst"):
+            for fn in ["err.log", "main.lst", "out.lst", "all.log"] + sorted(n[:-4] + ".log" for n in files if n.endswith(".asm")):
                 p = os.path.join(wd, fn)
                 if os.path.exists(p):
                     print("----", fn)
                     print(open(p, encoding="latin-1").read()[-3000:])
     if "request" in d:
-        mode = "c20x" if d.get("tag", "").startswith("expect") else "c20c" if re.match(r"^g\d n\d f\d l\d ", d["request"]) else "c20"
+        mode = "c20x" if d.get("tag", "").startswith("expect") else "c20m" if re.match(r"^t\d c\d ", d["request"]) else "c20c" if re.match(r"^g\d n\d f\d l\d ", d["request"]) else "c20"
         print(common.driver(mode, [d["request"]])[0][:1500])
     return 0
